@@ -36,6 +36,16 @@ def long_type(n):
     return "Union[" + ", ".join(names) + "]"
 
 
+def long_literal(n):
+    """Literal of multi-word string choices, about n characters long (a wrapped type line can break inside a choice)."""
+    names = []
+    i = 0
+    while len("Literal[" + ", ".join(names) + "]") < n:
+        names.append("'choice number %d'" % i)
+        i += 1
+    return "Literal[" + ", ".join(names) + "]"
+
+
 def cases(L):
     lens = [("L-1", L - 1), ("L", L), ("L+1", L + 1), ("2L+3", 2 * L + 3), ("5L", 5 * L)]
     out = []
@@ -48,12 +58,15 @@ def cases(L):
         out.append(("both_params:" + label, dict(a_doc=words(n, "p"), b_doc=words(n, "q"))))
         out.append(("prose+default:" + label, dict(a_doc=words(n, "p"), a_default=5)))
         out.append(("second_param:" + label, dict(b_doc=words(n, "q"), b_default="foo")))
+        out.append(("literal_type:" + label, dict(a_typ=long_literal(n), a_default="choice number 0")))
     # absolute lengths: sweeping L moves the line break across every position of these texts
     for n in range(36, 141, 3):
         out.append(("fixed_default_sentence:%d" % n, dict(a_doc=words(n, "p") + ". Defaults to 5")))
     # long prose under a two-line summary: the re-fill path of the class / function docstring builder
     for n in range(150, 331, 3):
         out.append(("multiline_summary:%d" % n, dict(summary="First line of the summary\nsecond line of it", a_doc=words(n, "p"))))
+    for n in range(40, 141, 10):
+        out.append(("fixed_literal_type:%d" % n, dict(a_typ=long_literal(n), a_default="choice number 1")))
     for n in (45, 70, 95, 120, 170, 260):
         out.append(("fixed_dashes:%d" % n, dict(a_doc=dashed(n), b_doc=dashed(n + 7))))
     return out
